@@ -759,6 +759,30 @@ func main() {
 	}
 	fact("Commit cases %v; isDirty %q; Finalise guard %q over %q", commitCases, isDirtyDef, finaliseGuard, finaliseRange)
 
+	// ---- the batch objects (middleware/db): what Put / ValueSize / Write / Reset do
+	var batchFacts []string
+	for _, spec := range []struct{ file, typ string }{
+		{"src/middleware/db/leveldb.go", "ldbBatch"}, {"src/middleware/db/database.go", "prefixBatch"}, {"src/middleware/db/database.go", "memBatch"}} {
+		bfile := parse(filepath.Join(repo, spec.file))
+		for _, m := range []string{"Put", "ValueSize", "Write", "Reset"} {
+			fd := findMethod(bfile, spec.typ, m)
+			if fd == nil {
+				batchFacts = append(batchFacts, spec.typ+"."+m+": not-found")
+				continue
+			}
+			var toks []string
+			for _, st := range fd.Body.List {
+				t := src(st)
+				if strings.HasPrefix(t, "b.logger.") || strings.Contains(t, "verifC") {
+					continue // logging; verif-tagged observation hooks of other properties (no-ops without the tag)
+				}
+				toks = append(toks, t)
+			}
+			batchFacts = append(batchFacts, spec.typ+"."+m+": "+strings.Join(toks, " ; "))
+		}
+	}
+	fact("batch objects %v", batchFacts)
+
 	// ---- hasher.store: insert before onleaf
 	hf := parse(filepath.Join(repo, "src/storage/trie/hasher.go"))
 	store := findMethod(hf, "hasher", "store")
@@ -821,6 +845,7 @@ namespace Rangers.Generated.TrieDbFacts
 	fmt.Fprintf(&o, "/-- `blockChain.updateLastBlock`: the head record write and its error check. -/\ndef updateLastBlockSkeleton : List String := %s\n\n", leanStrList(ul))
 	fmt.Fprintf(&o, "/-- every `Put`/`Delete` of the head record key `latestBlockKey` in src/core (file:function:op). -/\ndef headRecordWriters : List String := %s\n\n", leanStrList(headWriters))
 	fmt.Fprintf(&o, "/-- `blockChainFork.saveState` (src/core/fork_block.go): the same commit pair. -/\ndef forkSaveStateSkeleton : List String := %s\n\n", leanStrList(fs))
+	fmt.Fprintf(&o, "/-- bodies of Put / ValueSize / Write / Reset of the batch types in src/middleware/db (logging dropped). -/\ndef batchObjectFacts : List String :=\n  %s\n\n", leanStrList(batchFacts))
 	fmt.Fprintf(&o, "/-- the cases of the per-object `switch` in `AccountDB.Commit`, verbatim, with what each does. -/\ndef commitObjectCases : List String :=\n  %s\n\n", leanStrList(commitCases))
 	fmt.Fprintf(&o, "/-- how `isDirty` is computed in `AccountDB.Commit`. -/\ndef commitIsDirtyDef : String := %q\n\n", isDirtyDef)
 	fmt.Fprintf(&o, "/-- the delete guard of `AccountDB.Finalise` and the set it ranges over. -/\ndef finaliseDeleteGuard : String := %q\ndef finaliseRangesOver : String := %q\n\n", finaliseGuard, finaliseRange)
